@@ -77,9 +77,28 @@ def lean_sources():
                 yield os.path.join(root, f)
 
 
-def forbidden_tokens():
+def import_closure(modules):
+    """Local .lean files (under lean/) transitively imported by the given modules."""
+    seen, todo = {}, list(modules)
+    while todo:
+        m = todo.pop()
+        if m in seen:
+            continue
+        path = os.path.join(LEAN, m.replace('.', '/') + '.lean')
+        if not os.path.exists(path):
+            continue
+        seen[m] = path
+        with open(path) as f:
+            for line in f:
+                mm = re.match(r'^\s*(?:public\s+)?import\s+(\S+)', line)
+                if mm:
+                    todo.append(mm.group(1))
+    return sorted(seen.values())
+
+
+def forbidden_tokens(modules=None):
     hits = []
-    for p in lean_sources():
+    for p in (import_closure(modules) if modules else lean_sources()):
         with open(p) as f:
             src = _strip_comments(f.read())
         for ln, line in enumerate(src.split('\n'), 1):
@@ -349,7 +368,7 @@ def main(argv=None):
             proof_broken = out
             log('lake build of %s FAILED' % modules)
         # 3. audit
-        hits = forbidden_tokens()
+        hits = forbidden_tokens(modules + ['Driver.Main' + prop_id])
         if hits:
             raise HarnessError('forbidden tokens in lean sources:\n' + '\n'.join(hits))
         obligations, discharged, bad_axioms, audit_names = 0, 0, [], []
